@@ -167,11 +167,15 @@ CHECKS = {
             "Lean theorems (C15.hvCells_eq_volume: the grid specification equals the Lebesgue measure of the union of the boxes [p,ref) in EVERY dimension; "
             "hvSlice_eq_hvCells (discrete Fubini) and hvSlice_eq_volume for the executable reference; hvCells_set/perm/dup/dominated/boundary, hv_mono, hv_nonneg, "
             "hv_single, hv_inclusion_exclusion, hvIE_eq_hvCells, hv_1d(+_min), hv_2d staircase, indicator_least, population_coord/hv/hv_volume/default_ref) hold for all "
-            "point lists and reference points over Q. The dimension-sweep implementations (_hv.c rebuilt from the working tree on every run, pyhv.py) and the two wrappers "
-            "with both backends are diffed against hvSlice on exactly representable inputs (exhaustive small domain, every permutation for <=5 points, tie-heavy d<=7) "
-            "and checked by an independent inclusion-exclusion oracle.",
-            TB + "partial: the proof covers the specification and the wrappers; _hv.c/hv.cpp/pyhv.py are validated against it, not verified. IEEE products of the "
-            "dyadic test inputs are exact (checked per case); C compiler, extension loading, numpy.argmax/max trusted.",
+            "point lists and reference points over Q. pyhv's algorithm is transcribed (Core/HvSweep.lean: multi-linked list, hvRecursive with caches, bounds pruning and "
+            "ignore marking) and diffed on every case against pyhv's value AND internal state; proved about it: sweep_terminates + sweep_restores_lists (all d), sweep_1d, "
+            "sweep_2d, hv_slab_step / hv_slab_decomposition (all d), sweep_eq_hvCells_partial (d <= 2); open: sweep_eq_hvCells_Statement for d >= 3. The dimension-sweep implementations (_hv.c rebuilt from the working tree on every run, pyhv.py) and the two wrappers "
+            "with both backends are diffed against hvSlice on exactly representable inputs (exhaustive small domain, every permutation for <=5 points, tie-heavy d<=7), on "
+            "general-position doubles (1e-12 relative against the exact Rat measure of the doubles' exact values), and under every calling convention (lists, tuples, int "
+            "arrays, the same array twice, zero reference); an independent inclusion-exclusion oracle checks every answer.",
+            TB + "partial: the proof covers the specification, the wrappers and pyhv's algorithm up to d = 2 (plus termination and the slab decomposition for all d); the C "
+            "extension (variant with AVL tree) is validated only, pyhv for d >= 3 by value and state correspondence. IEEE products of the dyadic test inputs are exact "
+            "(checked per case); C compiler, extension loading, numpy.argmax/max trusted.",
             "Lean 4 proof (Mathlib measure theory) over a specification-level model + differential correspondence of two implementations + oracle"),
     "C18": ("full",
             "Lean theorems C18.* over histories of any length (record, pop, del index/slice, stream, chapter streams, header settings): logbook and chapters are the "
@@ -219,7 +223,9 @@ CHECKS = {
             "preservation of positive definiteness (onepl_cov_rule, onepl_factor, onepl_posdef), MO selection count / rank-then-indicator closed form / "
             "alignment of the five per-parent lists (mo_select_count, mo_rank_then_hv, mo_alignment, mo_adjust_spec, mo_offspring_values), and the "
             "whole-history invariants active_inverse_history (invA A = I through every rank-one branch and constraint update), mo_inverse_history, "
-            "mo_psucc_sigma_history and onepl_factor_history (A A^T = C, C positive definite after every round). No unproved statement remains. "
+            "mo_psucc_sigma_history and onepl_factor_history (A A^T = C with A lower-triangular, C symmetric positive definite after every round, under the Cholesky "
+            "contract on symmetric positive-definite input - cholOK_two exhibits it in dimension 2; onepl_sym/onepl_posdef re-establish the precondition each round), "
+            "default-parameter ranges for all three strategies, init_psucc_unit, generate_round_ok (the MO round side conditions follow from generate). No unproved statement remains. "
             "The Float instance of the same definitions is diffed against the real strategies on 1..300-round histories and the statement is evaluated "
             "as an oracle after every round while cond(A)<1e12.",
             TB + "numpy.linalg.cholesky/inv (LAPACK), numpy.around, sortLogNondominated (C04) and the hypervolume indicator (C15) are model parameters whose "
